@@ -746,6 +746,8 @@ def run(c, facts):
     c.shared(R16, _c10.r6_complete, 'C10.R6', facts)
     c.run(r15_imports_declared, facts)
     c.run(r14_same_winner, facts)
+    R19 = c.rule('C08.R19', 'LOCATOR-IDENTITY: two imports are one module exactly when their locators are the same URL - the identity of Locator (eq / hash / ord) is the derived one, so a qualified name binds into the module its own `use` names (shared with C10.R10)')
+    c.shared(R19, _c10.r10_locator_identity, 'C10.R10', facts)
     c.run(r18_clash_same_scope, facts)
     c.run(r17_name_keyed_state, facts)
     c.run(r13_lexical_eval, facts)
